@@ -9,7 +9,7 @@ import z3
 from pyvc.engine import ClassRef, ExcVal, Fn, PyRaise, Rec, is_z3, lift
 from pyvc.units import Setup, Unit
 
-KINDS = ["typed", "plain-type-fn", "plain-type-fn-list", "plain-no-type", "choices", "choices-list", "config-load-text", "config-load-structured", "subcommand-name", "subcommand-section", "subcommands-without-choices"]
+KINDS = ["typed", "plain-type-fn", "plain-type-fn-list", "plain-no-type", "choices", "choices-list", "choices-list-given-a-scalar", "config-load-text", "config-load-structured", "subcommand-name", "subcommand-section", "subcommands-without-choices"]
 
 
 def cvk_setup(ctx):
@@ -54,6 +54,10 @@ def cvk_setup(ctx):
     elif kind == "choices-list":
         action = Rec("Action", attrs={"dest": key, "choices": list(choices), "nargs": "+", "type": None})
         value = list(elems)
+    elif kind == "choices-list-given-a-scalar":
+        # a document gives one value where the option takes a list (n: a): not a list, so no element can be checked
+        action = Rec("Action", attrs={"dest": key, "choices": list(choices), "nargs": "+", "type": None})
+        value = given
     elif kind.startswith("config-load"):
         action = Rec("_ActionConfigLoad", attrs={"dest": key, "choices": None, "nargs": None, "type": None}, methods={"check_type": lambda c, s_, a, k: (c.event("load", a[0], a[1]), ("loaded", a[0]))[1]})
         value = z3.String("given-text") if kind == "config-load-text" else Rec("Namespace given")
@@ -115,6 +119,8 @@ def cvk_post(ctx, st, result):
     elif k == "subcommand-section":
         vs = [e for e in ev if e[0] == "sub.validate"]
         ctx.oblige("post", "a-subcommand's-section-is-validated-by-that-subcommand's-parser,under-its-key" + tag, len(vs) == 1 and vs[0][1] is d["value"] and vs[0][2] == d["key"] + "." and result is d["value"])
+    elif k == "choices-list-given-a-scalar":
+        ctx.oblige("post", "a-value-that-is-not-a-list-is-never-accepted-for-a-list-valued-option-with-choices" + tag, False)
     else:
         ctx.oblige("post", "no-subcommands-declared=>value-as-given" + tag, result is d["value"])
     ctx.oblige("post", "no-context-left-open" + tag, not d["open_cms"])
@@ -128,9 +134,11 @@ def cvk_raises(ctx, st, exc):
         if d["none_val"]:
             vals = [None]
         member = [z3.Or(*[lift(v) == c for c in d["choices"]]) if v is not None else z3.BoolVal(False) for v in vals]
-        # the parse paths turn TypeError into ArgumentError (C03); for None (reachable only through validate(skip_none=False)) the class is not fixed:
-        # a list-valued option answers with an AssertionError there, a scalar one with TypeError - noted in DESIGN 11, no property states which
-        ctx.oblige("raises", "rejected-by-choices=>some-value-is-not-among-the-choices(TypeError for a given value)" + tag, z3.And(z3.BoolVal(exc.cls == "TypeError" or d["none_val"]), z3.Not(z3.And(*member))))
+        # the parse paths turn TypeError into ArgumentError (C03): nothing else may leave (an AssertionError did, for a value that is not a list)
+        ctx.oblige("raises", "rejected-by-choices=>TypeError,and-some-value-is-not-among-the-choices(or, for a list-valued option, the value is not a list)" + tag,
+                   z3.And(z3.BoolVal(exc.cls == "TypeError"), z3.BoolVal(True) if (d["kind"] == "choices-list" and d["none_val"]) else z3.Not(z3.And(*member))))
+    elif d["kind"] == "choices-list-given-a-scalar":
+        ctx.oblige("raises", f"a-value-that-is-not-a-list-is-refused-with-TypeError(what the parse methods report as ArgumentError)(got {exc.cls})" + tag, exc.cls == "TypeError" and exc.origin.startswith("raise@"))
     elif d["kind"].startswith("plain-type-fn"):
         ctx.oblige("raises", f"a-failing-type-function(TypeError/ValueError)-is-reported-as-TypeError-naming-the-key;anything-else-as-it-is(got {exc.cls})" + tag,
                    (d["fails"] in ("TypeError", "ValueError") and exc.cls == "TypeError" and exc.origin != "type-fn") or (d["fails"] == "KeyError" and exc.cls == "KeyError"))
